@@ -1,7 +1,7 @@
-(* Select: which top-level imports of the script get a registration statement.
+(* Select: which top-level imports of the script get registration statements.
    Statement-by-statement model of
-     ProfmodExtractor._ast_get_imports_from_tree     (profmod_extractor.py:130-175)
-     ProfmodExtractor._find_modnames_in_tree_imports (profmod_extractor.py:177-215)
+     ProfmodExtractor._ast_get_imports_from_tree     (profmod_extractor.py)
+     ProfmodExtractor._find_modnames_in_tree_imports (profmod_extractor.py)
    (the same two functions are regenerated from the source into Gen/Select.v by
    the translator; Ast/SelectGen.v proves the two readings equal), the
    specification [wanted] read off property C09, and the theorems relating them. *)
@@ -18,25 +18,28 @@ Definition add_entry (st : gi_state) (modname : string) (al : option string) (id
 Definition add_import (idx : Z) (st : gi_state) (a : alias) : gi_state :=
   add_entry st (fst a) (snd a) idx.
 
-Definition add_from (idx : Z) (m : string) (st : gi_state) (a : alias) : gi_state :=
-  add_entry st (m ++ "." ++ fst a) (Some (str_or (snd a) (fst a))) idx.
+Definition is_star (a : alias) : bool := String.eqb (fst a) "*".
 
-(* node.module + '.' + name.name raises TypeError when node.module is None
-   (`from . import x`), as soon as there is a name to iterate over *)
-Fixpoint get_imports_from (idx : Z) (body : list stmt) (st : gi_state) : res gi_state :=
+(* `from foo import *` binds no single name: skipped *)
+Definition add_from (idx : Z) (m : string) (st : gi_state) (a : alias) : gi_state :=
+  if is_star a then st
+  else add_entry st (m ++ "." ++ fst a) (Some (str_or (snd a) (fst a))) idx.
+
+Definition future_module (m : string) : bool := String.eqb m "__future__".
+
+(* `from . import x` (module None) is skipped: nothing to match against absolute names;
+   `from __future__ import ...` is skipped: nothing to profile, nothing may follow it *)
+Fixpoint get_imports_from (idx : Z) (body : list stmt) (st : gi_state) : gi_state :=
   match body with
-  | [] => Ok st
+  | [] => st
   | Import ns _ :: r => get_imports_from (idx + 1) r (fold_left (add_import idx) ns st)
-  | ImportFrom m ns _ _ :: r =>
-      match m with
-      | Some m => get_imports_from (idx + 1) r (fold_left (add_from idx m) ns st)
-      | None => if list_empty ns then get_imports_from (idx + 1) r st else Err TypeError
-      end
+  | ImportFrom (Some m) ns _ _ :: r =>
+      if future_module m then get_imports_from (idx + 1) r st
+      else get_imports_from (idx + 1) r (fold_left (add_from idx m) ns st)
   | _ :: r => get_imports_from (idx + 1) r st
   end.
 
-Definition get_imports (body : list stmt) : res (list imp) :=
-  match get_imports_from 0 body ([], []) with Ok st => Ok (fst st) | Err e => Err e end.
+Definition get_imports (body : list stmt) : list imp := fst (get_imports_from 0 body ([], [])).
 
 (* ---- _find_modnames_in_tree_imports --------------------------------------------- *)
 Definition matches (S : list string) (n : string) : bool := str_in n S || str_in (parent n) S.
@@ -48,22 +51,24 @@ Definition fm_state := (dict * list string)%type.   (* modnames_found_in_tree, m
 Definition find_step (S : list string) (st : fm_state) (m : imp) : fm_state :=
   if str_in (i_name m) (snd st) then st
   else if negb (str_in (i_name m) S) && negb (str_in (parent (i_name m)) S) then st
-  else (dict_set (fst st) (i_idx m) (reg_name m), snd st ++ [i_name m]).
+  else (dict_add (fst st) (i_idx m) (reg_name m), snd st ++ [i_name m]).
 
 Definition find_modnames (S : list string) (mdl : list imp) : dict :=
   fst (fold_left (find_step S) mdl ([], [])).
 
 (* ProfmodExtractor.run(), given the resolved selection S (modnames_to_profile) *)
-Definition select (S : list string) (body : list stmt) : res dict :=
-  match get_imports body with Ok mdl => Ok (find_modnames S mdl) | Err e => Err e end.
+Definition select (S : list string) (body : list stmt) : dict := find_modnames S (get_imports body).
 
 (* ---- specification (property C09, second sentence) ------------------------------ *)
-(* every name bound by a top-level import statement, with the index of its statement *)
+(* every single name bound by a top-level import statement that can be profiled (not a star,
+   not a __future__ feature, not a bare relative import), with the index of its statement *)
 Definition binds_of_stmt (idx : Z) (s : stmt) : list imp :=
   match s with
   | Import ns _ => map (fun a => Build_imp (fst a) (snd a) idx) ns
   | ImportFrom (Some m) ns _ _ =>
-      map (fun a : alias => Build_imp (m ++ "." ++ fst a) (Some (str_or (snd a) (fst a))) idx) ns
+      if future_module m then []
+      else map (fun a : alias => Build_imp (m ++ "." ++ fst a) (Some (str_or (snd a) (fst a))) idx)
+               (filter (fun a => negb (is_star a)) ns)
   | _ => []
   end.
 
@@ -84,15 +89,13 @@ Fixpoint first_by_name (seen : list string) (l : list imp) : list imp :=
 
 Definition selected (S : list string) (m : imp) : bool := matches S (i_name m).
 
+Definition kv_of (m : imp) : Z * string := (i_idx m, reg_name m).
+
 (* (statement index, name handed to the registration call) the property demands:
    the alias of b for every first top-level binding b whose real name, or the parent
-   of whose real name, is in the selection *)
+   of whose real name, is in the selection - in source order *)
 Definition wanted (S : list string) (body : list stmt) : list (Z * string) :=
-  map (fun m => (i_idx m, reg_name m)) (filter (selected S) (first_by_name [] (all_bindings body))).
-
-(* no `from . import x` at top level (module None) *)
-Definition no_bare_relative (body : list stmt) : bool :=
-  forallb (fun s => match s with ImportFrom None ns _ _ => list_empty ns | _ => true end) body.
+  map kv_of (filter (selected S) (first_by_name [] (all_bindings body))).
 
 (* ---- get_imports computes the first bindings ------------------------------------ *)
 Lemma first_by_name_app seen l1 l2 :
@@ -105,16 +108,18 @@ Proof.
     cbn [app map]. rewrite IH. rewrite <- app_assoc. reflexivity.
 Qed.
 
-Lemma fold_entries {A} (mk : A -> imp) (step : gi_state -> A -> gi_state) :
-  (forall st a, step st a = add_entry st (i_name (mk a)) (i_alias (mk a)) (i_idx (mk a))) ->
+(* a loop that adds one entry per element passing [keep] *)
+Lemma fold_entries {A} (keep : A -> bool) (mk : A -> imp) (step : gi_state -> A -> gi_state) :
+  (forall st a, step st a = if keep a then add_entry st (i_name (mk a)) (i_alias (mk a)) (i_idx (mk a)) else st) ->
   forall ns mdl names,
     fold_left step ns (mdl, names)
-    = (mdl ++ first_by_name names (map mk ns),
-       names ++ map i_name (first_by_name names (map mk ns))).
+    = (mdl ++ first_by_name names (map mk (filter keep ns)),
+       names ++ map i_name (first_by_name names (map mk (filter keep ns)))).
 Proof.
-  intros Hstep. induction ns as [|a ns IH]; intros mdl names; cbn [fold_left map first_by_name].
-  - rewrite !app_nil_r. reflexivity.
-  - rewrite Hstep. unfold add_entry. cbn [fst snd].
+  intros Hstep. induction ns as [|a ns IH]; intros mdl names; cbn [fold_left filter].
+  - cbn. rewrite !app_nil_r. reflexivity.
+  - rewrite Hstep. destruct (keep a) eqn:K; [|apply IH].
+    cbn [map first_by_name]. unfold add_entry. cbn [fst snd].
     destruct (str_in (i_name (mk a)) names) eqn:E.
     + apply IH.
     + rewrite IH. cbn [map]. rewrite <- !app_assoc. cbn [app].
@@ -122,49 +127,35 @@ Proof.
 Qed.
 
 Lemma get_imports_from_spec body : forall idx mdl names,
-  no_bare_relative body = true ->
   get_imports_from idx body (mdl, names)
-  = Ok (mdl ++ first_by_name names (all_bindings_from idx body),
-        names ++ map i_name (first_by_name names (all_bindings_from idx body))).
+  = (mdl ++ first_by_name names (all_bindings_from idx body),
+     names ++ map i_name (first_by_name names (all_bindings_from idx body))).
 Proof.
-  induction body as [|s r IH]; intros idx mdl names Hn.
+  induction body as [|s r IH]; intros idx mdl names.
   - cbn. rewrite !app_nil_r. reflexivity.
-  - cbn [no_bare_relative forallb] in Hn. apply andb_prop in Hn as [Hs Hr].
-    change (forallb _ r) with (no_bare_relative r) in Hr.
-    cbn [all_bindings_from]. rewrite first_by_name_app.
+  - cbn [all_bindings_from]. rewrite first_by_name_app.
     destruct s as [a n ds b l|n i b l|ns l|m ns lv l|i bs l|i l|n loc];
       cbn [get_imports_from binds_of_stmt first_by_name app map];
-      try (rewrite IH by exact Hr; rewrite ?app_nil_r; reflexivity).
+      try (rewrite IH; rewrite ?app_nil_r; reflexivity).
     + (* Import *)
-      rewrite (fold_entries (fun a : alias => Build_imp (fst a) (snd a) idx) (add_import idx))
+      rewrite (fold_entries (fun _ => true) (fun a : alias => Build_imp (fst a) (snd a) idx) (add_import idx))
         by (intros st a; reflexivity).
-      rewrite IH by exact Hr. rewrite map_app, !app_assoc. reflexivity.
+      replace (filter (fun _ : alias => true) ns) with ns
+        by (clear; induction ns as [|x ns IHn]; [reflexivity|cbn; rewrite <- IHn; reflexivity]).
+      rewrite IH. rewrite map_app, !app_assoc. reflexivity.
     + (* ImportFrom *)
-      destruct m as [m|].
-      * rewrite (fold_entries (fun a : alias => Build_imp (m ++ "." ++ fst a) (Some (str_or (snd a) (fst a))) idx)
-                              (add_from idx m)) by (intros st a; reflexivity).
-        rewrite IH by exact Hr. rewrite map_app, !app_assoc. reflexivity.
-      * rewrite Hs. cbn [first_by_name app map]. rewrite IH by exact Hr. rewrite ?app_nil_r. reflexivity.
+      destruct m as [m|]; [destruct (future_module m)|].
+      * cbn [first_by_name app map]. rewrite IH, ?app_nil_r. reflexivity.
+      * rewrite (fold_entries (fun a => negb (is_star a))
+                              (fun a : alias => Build_imp (m ++ "." ++ fst a) (Some (str_or (snd a) (fst a))) idx)
+                              (add_from idx m))
+          by (intros st a; unfold add_from; destruct (is_star a); reflexivity).
+        rewrite IH. rewrite map_app, !app_assoc. reflexivity.
+      * cbn [first_by_name app map]. rewrite IH, ?app_nil_r. reflexivity.
 Qed.
 
-Theorem get_imports_spec body :
-  no_bare_relative body = true ->
-  get_imports body = Ok (first_by_name [] (all_bindings body)).
-Proof.
-  intros H. unfold get_imports, all_bindings. rewrite get_imports_from_spec by exact H. reflexivity.
-Qed.
-
-(* a bare relative import at top level makes the extractor raise TypeError *)
-Lemma get_imports_from_bare body : forall idx st,
-  no_bare_relative body = false -> get_imports_from idx body st = Err TypeError.
-Proof.
-  induction body as [|s r IH]; intros idx st H; [discriminate|].
-  cbn [no_bare_relative forallb] in H. change (forallb _ r) with (no_bare_relative r) in H.
-  destruct s as [a n ds b l|n i b l|ns l|m ns lv l|i bs l|i l|n loc]; cbn [get_imports_from];
-    try (apply IH; exact H).
-  destruct m as [m|]; [apply IH; exact H|].
-  destruct (list_empty ns); [apply IH; exact H|reflexivity].
-Qed.
+Theorem get_imports_spec body : get_imports body = first_by_name [] (all_bindings body).
+Proof. unfold get_imports, all_bindings. rewrite get_imports_from_spec. reflexivity. Qed.
 
 (* ---- names of first_by_name are distinct, so find's dedup never fires on them ---- *)
 Lemma first_by_name_notin seen l x :
@@ -197,12 +188,6 @@ Proof.
   destruct (String.eqb_spec x (i_name m)) as [->|]; [contradiction|reflexivity].
 Qed.
 
-Lemma filter_names_incl {A} (f : A -> string) p (l : list A) x :
-  In x (map f (filter p l)) -> In x (map f l).
-Proof.
-  rewrite !in_map_iff. intros [m [E H]]. apply filter_In in H as [H _]. exists m; split; assumption.
-Qed.
-
 Lemma nodup_map_filter {A B} (f : A -> B) p (l : list A) :
   NoDup (map f l) -> NoDup (map f (filter p l)).
 Proof.
@@ -213,15 +198,13 @@ Proof.
   apply filter_In in Hm as [Hm _]. exists m; split; assumption.
 Qed.
 
-(* ---- find_modnames as dict_set over the selected first bindings ------------------- *)
-Definition dict_set_all (d : dict) (kvs : list (Z * string)) : dict :=
-  fold_left (fun d kv => dict_set d (fst kv) (snd kv)) kvs d.
-
-Definition kv_of (m : imp) : Z * string := (i_idx m, reg_name m).
+(* ---- find_modnames as dict_add over the selected first bindings ------------------- *)
+Definition dict_add_all (d : dict) (kvs : list (Z * string)) : dict :=
+  fold_left (fun d kv => dict_add d (fst kv) (snd kv)) kvs d.
 
 Lemma find_fold S mdl : forall d added,
   fold_left (find_step S) mdl (d, added)
-  = (dict_set_all d (map kv_of (first_by_name added (filter (selected S) mdl))),
+  = (dict_add_all d (map kv_of (first_by_name added (filter (selected S) mdl))),
      added ++ map i_name (first_by_name added (filter (selected S) mdl))).
 Proof.
   induction mdl as [|m mdl IH]; intros d added; cbn [fold_left filter].
@@ -231,137 +214,140 @@ Proof.
     replace (find_step S (d, added) m)
       with (if str_in (i_name m) added then (d, added)
             else if negb (selected S m) then (d, added)
-                 else (dict_set d (i_idx m) (reg_name m), added ++ [i_name m]))
+                 else (dict_add d (i_idx m) (reg_name m), added ++ [i_name m]))
       by (unfold find_step; cbn [fst snd]; rewrite Hsel; reflexivity).
     destruct (selected S m) eqn:Es; cbn [negb].
     + cbn [first_by_name]. destruct (str_in (i_name m) added) eqn:Ea.
       * apply IH.
-      * rewrite IH. cbn [map dict_set_all fold_left fst snd kv_of].
+      * rewrite IH. cbn [map dict_add_all fold_left fst snd kv_of].
         rewrite <- app_assoc. reflexivity.
     + destruct (str_in (i_name m) added); apply IH.
 Qed.
 
 Lemma find_modnames_eq S mdl :
   NoDup (map i_name mdl) ->
-  find_modnames S mdl = dict_set_all [] (map kv_of (filter (selected S) mdl)).
+  find_modnames S mdl = dict_add_all [] (map kv_of (filter (selected S) mdl)).
 Proof.
   intros Hnd. unfold find_modnames. rewrite find_fold. cbn [fst].
   rewrite first_by_name_id; [reflexivity|apply nodup_map_filter; exact Hnd|reflexivity].
 Qed.
 
-Theorem select_eq S body :
-  no_bare_relative body = true ->
-  select S body = Ok (dict_set_all [] (wanted S body)).
+Theorem select_eq S body : select S body = dict_add_all [] (wanted S body).
 Proof.
-  intros H. unfold select. rewrite get_imports_spec by exact H.
+  unfold select. rewrite get_imports_spec.
   rewrite find_modnames_eq by apply first_by_name_nodup. reflexivity.
 Qed.
 
-(* ---- dict_set facts --------------------------------------------------------------- *)
-Lemma dict_set_in d k v p : In p (dict_set d k v) -> p = (k, v) \/ In p d.
+(* ---- dict_add facts ----------------------------------------------------------------- *)
+Lemma dict_names_add d k v k' :
+  dict_names (dict_add d k v) k' = dict_names d k' ++ (if Z.eqb k k' then [v] else []).
 Proof.
-  induction d as [|[k' v'] r IH]; cbn [dict_set In].
-  - intros [H|[]]; left; congruence.
-  - destruct (Z.eqb k' k); cbn [In]; intros [H|H]; auto.
-    destruct (IH H); auto.
+  unfold dict_names. induction d as [|[k0 vs] r IH]; cbn [dict_add dict_get].
+  - destruct (Z.eqb k k'); reflexivity.
+  - destruct (Z.eqb_spec k0 k) as [->|Hne]; cbn [dict_get].
+    + destruct (Z.eqb k k'); [reflexivity|]. rewrite app_nil_r. reflexivity.
+    + destruct (Z.eqb_spec k0 k') as [->|Hne'].
+      * destruct (Z.eqb_spec k k') as [->|_]; [congruence|]. rewrite app_nil_r. reflexivity.
+      * exact IH.
 Qed.
 
-Lemma dict_set_all_in kvs : forall d p, In p (dict_set_all d kvs) -> In p kvs \/ In p d.
+Lemma dict_names_add_all kvs : forall d k,
+  dict_names (dict_add_all d kvs) k
+  = dict_names d k ++ map snd (filter (fun kv => Z.eqb (fst kv) k) kvs).
 Proof.
-  induction kvs as [|[k v] kvs IH]; intros d p; cbn [dict_set_all fold_left fst snd In]; [auto|].
-  intros H. apply IH in H as [H|H]; [auto|]. apply dict_set_in in H as [H|H]; auto.
-Qed.
-
-Lemma dict_set_fresh d k v :
-  ~ In k (map fst d) -> dict_set d k v = d ++ [(k, v)].
-Proof.
-  induction d as [|[k' v'] r IH]; cbn [dict_set map fst In app]; intros H; [reflexivity|].
-  destruct (Z.eqb_spec k' k) as [->|Hne]; [exfalso; apply H; left; reflexivity|].
-  rewrite IH; [reflexivity|]. intros Hin; apply H; right; exact Hin.
-Qed.
-
-Lemma dict_set_all_fresh kvs : forall d,
-  NoDup (map fst kvs) -> (forall k, In k (map fst kvs) -> ~ In k (map fst d)) ->
-  dict_set_all d kvs = d ++ kvs.
-Proof.
-  induction kvs as [|[k v] kvs IH]; intros d Hnd Hd; cbn [dict_set_all fold_left fst snd].
+  induction kvs as [|[k0 v] kvs IH]; intros d k; cbn [dict_add_all fold_left filter fst snd].
   - rewrite app_nil_r. reflexivity.
-  - cbn [map fst] in Hnd, Hd. inversion Hnd as [|? ? Hk Hnd']; subst.
-    rewrite dict_set_fresh by (apply Hd; left; reflexivity).
-    change (fold_left _ kvs (d ++ [(k, v)])) with (dict_set_all (d ++ [(k, v)]) kvs).
-    rewrite IH; [rewrite <- app_assoc; reflexivity|exact Hnd'|].
-    intros k0 Hk0. rewrite map_app, in_app_iff. cbn [map fst In].
-    intros [H|[H|[]]]; [exact (Hd k0 (or_intror Hk0) H)|subst; contradiction].
+  - change (fold_left _ kvs (dict_add d k0 v)) with (dict_add_all (dict_add d k0 v) kvs).
+    rewrite IH, dict_names_add. destruct (Z.eqb k0 k); cbn [map snd];
+      rewrite <- app_assoc; reflexivity.
 Qed.
 
-Lemma dict_set_keys_nodup d k v : NoDup (map fst d) -> NoDup (map fst (dict_set d k v)).
+Lemma dict_items_add d k v p : In p (dict_items (dict_add d k v)) <-> p = (k, v) \/ In p (dict_items d).
 Proof.
-  induction d as [|[k' v'] r IH]; cbn [dict_set map fst]; intros H.
+  unfold dict_items. induction d as [|[k0 vs] r IH]; cbn [dict_add flat_map fst snd map].
+  - rewrite app_nil_r. cbn [In]. intuition.
+  - destruct (Z.eqb_spec k0 k) as [->|Hne]; cbn [flat_map fst snd].
+    + rewrite map_app, !in_app_iff. cbn [map In]. intuition.
+    + rewrite !in_app_iff, IH. intuition.
+Qed.
+
+Lemma dict_items_add_all kvs : forall d p,
+  In p (dict_items (dict_add_all d kvs)) <-> In p kvs \/ In p (dict_items d).
+Proof.
+  induction kvs as [|[k v] kvs IH]; intros d p; cbn [dict_add_all fold_left fst snd In]; [tauto|].
+  change (fold_left _ kvs (dict_add d k v)) with (dict_add_all (dict_add d k v) kvs).
+  rewrite IH, dict_items_add. intuition.
+Qed.
+
+Lemma dict_add_keys d k v x : In x (map fst (dict_add d k v)) <-> x = k \/ In x (map fst d).
+Proof.
+  induction d as [|[k0 vs] r IH]; cbn [dict_add map fst In]; [intuition|].
+  destruct (Z.eqb_spec k0 k) as [->|Hne]; cbn [map fst In]; [intuition|]. rewrite IH. intuition.
+Qed.
+
+Lemma dict_add_keys_nodup d k v : NoDup (map fst d) -> NoDup (map fst (dict_add d k v)).
+Proof.
+  induction d as [|[k0 vs] r IH]; cbn [dict_add map fst]; intros H.
   - constructor; [intros []|constructor].
-  - inversion H as [|? ? Hk Hr]; subst. destruct (Z.eqb_spec k' k) as [->|Hne]; cbn [map fst].
+  - inversion H as [|? ? Hk Hr]; subst. destruct (Z.eqb_spec k0 k) as [->|Hne]; cbn [map fst].
     + constructor; assumption.
-    + constructor; [|apply IH; exact Hr].
-      intros Hin. apply in_map_iff in Hin as [[k2 v2] [E Hin]]. cbn [fst] in E. subst k2.
-      apply dict_set_in in Hin as [Hin|Hin]; [congruence|].
-      apply Hk. apply in_map_iff. exists (k', v2). split; [reflexivity|exact Hin].
+    + constructor; [|apply IH; exact Hr]. rewrite dict_add_keys. intros [E|Hin]; [congruence|contradiction].
 Qed.
 
-Lemma dict_set_all_keys_nodup kvs : forall d, NoDup (map fst d) -> NoDup (map fst (dict_set_all d kvs)).
+Lemma dict_add_all_keys_nodup kvs : forall d, NoDup (map fst d) -> NoDup (map fst (dict_add_all d kvs)).
 Proof.
-  induction kvs as [|[k v] kvs IH]; intros d H; cbn [dict_set_all fold_left]; [exact H|].
-  apply IH. apply dict_set_keys_nodup. exact H.
+  induction kvs as [|[k v] kvs IH]; intros d H; cbn [dict_add_all fold_left]; [exact H|].
+  apply IH. apply dict_add_keys_nodup. exact H.
 Qed.
 
-Lemma find_modnames_keys_nodup S mdl : NoDup (map fst (find_modnames S mdl)).
+Lemma select_keys_nodup S body : NoDup (map fst (select S body)).
+Proof. rewrite select_eq. apply dict_add_all_keys_nodup. constructor. Qed.
+
+Lemma dict_get_names d k vs : dict_get d k = Some vs -> dict_names d k = vs.
+Proof. unfold dict_names. intros ->. reflexivity. Qed.
+
+Lemma dict_get_key d k vs : dict_get d k = Some vs -> In k (map fst d).
 Proof.
-  unfold find_modnames. rewrite find_fold. cbn [fst]. apply dict_set_all_keys_nodup. constructor.
+  induction d as [|[k0 v0] r IH]; cbn [dict_get map fst In]; [discriminate|].
+  destruct (Z.eqb_spec k0 k) as [->|]; [left; reflexivity|]. intros H. right. apply IH. exact H.
+Qed.
+
+Lemma dict_names_items d k y : In y (dict_names d k) -> In (k, y) (dict_items d).
+Proof.
+  unfold dict_names, dict_items. induction d as [|[k0 vs] r IH]; cbn [dict_get flat_map fst snd]; [tauto|].
+  destruct (Z.eqb_spec k0 k) as [->|Hne]; intros H; apply in_app_iff.
+  - left. apply in_map. exact H.
+  - right. apply IH. exact H.
+Qed.
+
+Lemma dict_items_names d k y : NoDup (map fst d) -> In (k, y) (dict_items d) -> In y (dict_names d k).
+Proof.
+  unfold dict_names, dict_items. induction d as [|[k0 vs] r IH]; cbn [dict_get flat_map fst snd map]; [tauto|].
+  intros Hnd H. inversion Hnd as [|? ? Hk Hr]; subst. apply in_app_iff in H as [H|H].
+  - apply in_map_iff in H as [v [E Hv]]. inversion E; subst. rewrite Z.eqb_refl. exact Hv.
+  - destruct (Z.eqb_spec k0 k) as [->|Hne]; [|apply IH; assumption].
+    exfalso. apply Hk. apply in_flat_map in H as [[k1 vs1] [Hin Hm]]. cbn [fst snd] in Hm.
+    apply in_map_iff in Hm as [v [E _]]. inversion E; subst. apply in_map_iff. exists (k, vs1). split; [reflexivity|exact Hin].
 Qed.
 
 (* ---- the C09 selection theorems ---------------------------------------------------- *)
-(* nothing extra: every registered (index, name) is one the property demands *)
-Theorem selection_sound S body d :
-  select S body = Ok d -> forall p, In p d -> In p (wanted S body).
-Proof.
-  intros Hs p Hp. destruct (no_bare_relative body) eqn:Hb.
-  - rewrite select_eq in Hs by exact Hb. inversion Hs; subst.
-    apply dict_set_all_in in Hp as [Hp|[]]. exact Hp.
-  - unfold select, get_imports in Hs. rewrite get_imports_from_bare in Hs by exact Hb. discriminate.
-Qed.
+(* exactness: the (index, name) pairs that get a registration are exactly the demanded ones *)
+Theorem selection_exact S body p : In p (dict_items (select S body)) <-> In p (wanted S body).
+Proof. rewrite select_eq, dict_items_add_all. cbn. tauto. Qed.
 
-(* exactness when no import statement binds two selected names *)
-Theorem selection_exact_partial S body :
-  no_bare_relative body = true ->
-  NoDup (map fst (wanted S body)) ->
-  select S body = Ok (wanted S body).
-Proof.
-  intros Hb Hnd. rewrite select_eq by exact Hb. f_equal.
-  apply (dict_set_all_fresh (wanted S body) [] Hnd). intros k _ [].
-Qed.
+(* ... and for every import statement they are registered in source order *)
+Theorem selection_order S body k :
+  dict_names (select S body) k = map snd (filter (fun kv => Z.eqb (fst kv) k) (wanted S body)).
+Proof. rewrite select_eq, dict_names_add_all. reflexivity. Qed.
 
-(* the full statement is false: two selected names in one statement share the key *)
-Definition refute_body : list stmt :=
-  [ImportFrom (Some "pkg") [("mod_a", None); ("mod_b", None)] 0 1].
-
-Theorem same_statement_refuted :
-  exists S body d p,
-    no_bare_relative body = true /\ select S body = Ok d /\ In p (wanted S body) /\ ~ In p d.
-Proof.
-  exists ["pkg"], refute_body, [(0, "mod_b")], (0, "mod_a").
-  split; [reflexivity|]. split; [vm_compute; reflexivity|]. split.
-  - vm_compute. left. reflexivity.
-  - intros [H|[]]. discriminate.
-Qed.
-
-Example selection_partial_nonvacuous :
-  let body := [ImportFrom (Some "pkg") [("mod_a", None)] 0 1;
-               Import [("pkg.sub.m", Some "z"); ("other", None)] 2;
-               ImportFrom (Some "pkgx") [("mod_a", Some "q")] 0 3] in
-  no_bare_relative body = true /\ NoDup (map fst (wanted ["pkg"; "pkg.sub.m"] body))
-  /\ wanted ["pkg"; "pkg.sub.m"] body = [(0, "mod_a"); (1, "z")].
-Proof.
-  cbn zeta. split; [reflexivity|]. split; [|vm_compute; reflexivity].
-  vm_compute. repeat constructor; cbn; intuition discriminate.
-Qed.
+Example selection_example :
+  let body := [ImportFrom (Some "pkg") [("mod_a", None); ("*", None); ("mod_b", Some "b")] 0 1;
+               Import [("pkg.sub.m", Some "z"); ("other", None); ("pkg.q", None)] 2;
+               ImportFrom None [("sib", None)] 1 3;
+               ImportFrom (Some "pkgx") [("mod_a", Some "q")] 0 4] in
+  select ["pkg"; "pkg.sub.m"] body = [(0, ["mod_a"; "b"]); (1, ["z"; "pkg.q"])]
+  /\ wanted ["pkg"; "pkg.sub.m"] body = [(0, "mod_a"); (0, "b"); (1, "z"); (1, "pkg.q")].
+Proof. cbn zeta. split; vm_compute; reflexivity. Qed.
 
 (* ---- whole dotted names ------------------------------------------------------------ *)
 Theorem matches_iff S n : matches S n = true <-> In n S \/ In (parent n) S.
@@ -375,12 +361,12 @@ Proof.
 Qed.
 
 (* a name is registered only if it, or its parent package, is literally in the selection *)
-Theorem no_prefix_confusion S body d k nm :
-  select S body = Ok d -> In (k, nm) d ->
+Theorem no_prefix_confusion S body k nm :
+  In (k, nm) (dict_items (select S body)) ->
   exists m, In m (all_bindings body) /\ i_idx m = k /\ reg_name m = nm
             /\ (In (i_name m) S \/ In (parent (i_name m)) S).
 Proof.
-  intros Hs Hin. apply (selection_sound S body d Hs) in Hin. unfold wanted in Hin.
+  intros Hin. apply selection_exact in Hin. unfold wanted in Hin.
   apply in_map_iff in Hin as [m [E Hm]]. apply filter_In in Hm as [Hm Hsel].
   exists m. inversion E; subst. repeat split; [eapply in_first_by_name; exact Hm|].
   apply matches_iff. exact Hsel.
@@ -396,16 +382,9 @@ Proof. vm_compute. repeat split. Qed.
 
 (* executable comparisons for the case shards *)
 Definition kv_eqb (a b : Z * string) : bool := Z.eqb (fst a) (fst b) && String.eqb (snd a) (snd b).
-Definition dict_eqb (a b : dict) : bool := list_eqb kv_eqb a b.
-
-Fixpoint insert_sorted (kv : Z * string) (l : dict) : dict :=
-  match l with
-  | [] => [kv]
-  | x :: r => if (fst kv <? fst x) || ((fst kv =? fst x) && (String.ltb (snd kv) (snd x))) then kv :: l
-              else x :: insert_sorted kv r
-  end.
-Definition sort_dict (d : dict) : dict := fold_right insert_sorted [] d.
+Definition dict_eqb (a b : dict) : bool :=
+  list_eqb (fun x y => Z.eqb (fst x) (fst y) && list_eqb String.eqb (snd x) (snd y)) a b.
 
 (* set equality of two (index, name) lists *)
-Definition kvs_subset (a b : dict) : bool := forallb (fun p => existsb (kv_eqb p) b) a.
-Definition kvs_seteq (a b : dict) : bool := kvs_subset a b && kvs_subset b a.
+Definition kvs_subset (a b : list (Z * string)) : bool := forallb (fun p => existsb (kv_eqb p) b) a.
+Definition kvs_seteq (a b : list (Z * string)) : bool := kvs_subset a b && kvs_subset b a.
